@@ -5,8 +5,9 @@
     and releases.  Pointers are block identities ([ptr]); a [const char *] argument is a
     [ptr] to a byte block (owned or foreign), so a key argument can BE the key block of the
     item that is being moved.  Loops run on fuel ([NoFuel]); the public entry points
-    compute their fuel from the heap they are called in ([heap_fuel]: number of live
-    blocks + 1 — a finite sibling chain / tree consists of distinct live blocks).
+    compute their fuel from the heap they are called in ([heap_fuel]: number of block
+    identities handed out so far + 1 — a finite sibling chain / tree consists of distinct
+    live blocks, whose identities are all below [h_next]).
     Error outcomes of [M] are the memory-safety violations.  No proofs here.
 
     Naming: the C name, verbatim.  [f_fuel] is the fuelled body of [f]; [f_loop] a loop of [f]. *)
@@ -30,8 +31,9 @@ Definition has_flag (t f : Z) : bool := negb (Z.land t f =? 0).
 Definition clear_flag (t f : Z) : Z := Z.land t (Z.lnot f).
 (** [if (b) { m }] *)
 Definition when (b : bool) (m : M unit) : M unit := if b then m else ret tt.
-(** loop bound supplied by the entry points: number of live blocks + 1 *)
-Definition heap_fuel : M nat := fun h => Ret (S (size (h_live h)), h).
+(** loop bound supplied by the entry points: the number of block identities handed out so far, + 1
+    (every live block has an identity below [h_next]; a finite chain / tree consists of distinct live blocks) *)
+Definition heap_fuel : M nat := fun h => Ret (Pos.to_nat (h_next h), h).
 
 Definition get_vint (p : ptr) : M Z := d <~ ld_dat p ;; ret (nd_vint d).
 Definition get_vdbl (p : ptr) : M dbl := d <~ ld_dat p ;; ret (nd_vdbl d).
